@@ -64,6 +64,7 @@ type Flags struct {
 type Doc struct {
 	Insts []Inst `json:"insts"`
 	Flags Flags  `json:"flags"`
+	Plain bool   `json:"plain,omitempty"` // written in block style with plain (unquoted) scalars where YAML allows, as in crd's own documentation
 }
 
 // ------------------------------------------------------------- YAML emitter
@@ -156,7 +157,88 @@ func (d Inst) yaml() string {
 func (d Doc) YAML() string {
 	var sb strings.Builder
 	for _, i := range d.Insts {
-		sb.WriteString(i.yaml())
+		if d.Plain {
+			sb.WriteString(i.yamlPlain())
+		} else {
+			sb.WriteString(i.yaml())
+		}
+	}
+	return sb.String()
+}
+
+// yp writes a scalar plain when that is unambiguous in YAML 1.1/1.2 for the way crd reads it
+// (digits, fractions, letters with an inner or trailing #), else double-quoted.
+func yp(s string) string {
+	if s == "" {
+		return yq(s)
+	}
+	for i, r := range s {
+		ok := r >= '0' && r <= '9' || r >= 'a' && r <= 'z' || r >= 'A' && r <= 'Z' || (i > 0 && (r == '/' || r == '#'))
+		if !ok {
+			return yq(s)
+		}
+	}
+	switch strings.ToLower(s) {
+	case "y", "n", "yes", "no", "true", "false", "on", "off", "null":
+		return yq(s)
+	}
+	return s
+}
+
+// yamlPlain: block style, the layout of the example in `crd write --help`.
+func (d Inst) yamlPlain() string {
+	var sb strings.Builder
+	first := true
+	item := func(f string, a ...any) {
+		if first {
+			sb.WriteString("- ")
+			first = false
+		} else {
+			sb.WriteString("  ")
+		}
+		sb.WriteString(fmt.Sprintf(f, a...))
+	}
+	if c := d.Chord; c != nil {
+		item("chord:\n")
+		sb.WriteString(fmt.Sprintf("    degree: %s\n    name: %s\n", yp(ivText(c.Deg, c.Suffix)), yq(c.name())))
+		if c.Bass != nil {
+			sb.WriteString(fmt.Sprintf("    base: %s\n", yp(ivText(*c.Bass, c.Suffix))))
+		}
+	}
+	if len(d.Values) == 0 {
+		item("values: []\n")
+	} else {
+		item("values:\n")
+		for _, v := range d.Values {
+			sb.WriteString("    - " + yp(v.String()) + "\n")
+		}
+	}
+	if d.BPM != nil {
+		item("bpm: %d\n", *d.BPM)
+	}
+	if d.Vel != nil {
+		item("velocity: %s\n", yp(*d.Vel))
+	}
+	if d.Meter != nil {
+		item("meter: %s\n", yp(d.Meter.String()))
+	}
+	if d.Key != nil {
+		item("key: %s\n", yp(*d.Key))
+	}
+	if d.Txt != nil {
+		keys := make([]string, 0, len(d.Txt))
+		for k := range d.Txt {
+			keys = append(keys, k)
+		}
+		sort.Strings(keys)
+		if len(keys) == 0 {
+			item("meta: {}\n")
+		} else {
+			item("meta:\n")
+			for _, k := range keys {
+				sb.WriteString(fmt.Sprintf("    %s: %s\n", yp(k), yq(d.Txt[k])))
+			}
+		}
 	}
 	return sb.String()
 }
@@ -414,6 +496,7 @@ func genDoc(o DocOpts) *rapid.Generator[Doc] {
 		}
 		_ = hasChord // `write` accepts documents made of rests only
 		d.Flags = genFlags(o).Draw(t, "flags")
+		d.Plain = coin(t, "plain-yaml", 35)
 		return d
 	})
 }
